@@ -208,3 +208,67 @@ func kPlusHop(v int) int {
 	}
 	return v + 1
 }
+
+// VerifC10_PublicAPI: the public construction and reading API of the weighted graph on symbolic condition names:
+// UpsertEdge keeps one edge per (target, kind, tupleset label) with the ordered set of condition names ("none" for
+// unconditioned, no duplicates), HasEdge finds exactly those, and every getter returns what the builder stored.
+func VerifC10_PublicAPI() {
+	wg := NewWeightedAuthorizationModelGraph()
+	from := wg.GetOrAddNode("doc#viewer", "doc#viewer", SpecificTypeAndRelation)
+	to := wg.GetOrAddNode("user", "user", SpecificType)
+	other := wg.GetOrAddNode("doc#editor", "doc#editor", SpecificTypeAndRelation)
+	zzverif.Assert(wg.GetOrAddNode("user", "user", SpecificType) == to, "node-per-unique-label")
+	var want []string
+	n := 1 + zzverif.Choose("upserts", 3)
+	for i := 0; i < n; i++ {
+		c := ""
+		if zzverif.Choose("conditioned", 2) == 1 {
+			c = zzverif.Str("condition", 1, 1, "ab")
+		}
+		zzverif.Assert(wg.UpsertEdge(from, to, DirectEdge, "", c) == nil, "upsert-succeeds")
+		name := c
+		if c == "" {
+			name = NoCond
+		}
+		seen := false
+		for _, w := range want {
+			if w == name {
+				seen = true
+			}
+		}
+		if !seen {
+			want = append(want, name)
+		}
+	}
+	zzverif.Assert(wg.UpsertEdge(from, other, TTUEdge, "doc#parent", "") == nil, "upsert-succeeds")
+	zzverif.Assert(wg.UpsertEdge(nil, to, DirectEdge, "", "") != nil, "upsert-without-node-is-an-error")
+	edges, ok := wg.GetEdgesFromNode(from)
+	zzverif.Assert(ok && len(edges) == 2, "one-edge-per-target-kind-and-tupleset")
+	if !ok || len(edges) != 2 {
+		return
+	}
+	e := edges[0]
+	zzverif.Assert(len(e.GetConditions()) == len(want), "conditions-are-an-ordered-set")
+	for i := range want {
+		if i < len(e.GetConditions()) {
+			zzverif.Assert(e.GetConditions()[i] == want[i], "conditions-are-an-ordered-set")
+		}
+	}
+	zzverif.Assert(e.GetFrom() == from && e.GetTo() == to && e.GetEdgeType() == DirectEdge && e.GetTuplesetRelation() == "", "edge-getters")
+	zzverif.Assert(edges[1].GetTo() == other && edges[1].GetEdgeType() == TTUEdge && edges[1].GetTuplesetRelation() == "doc#parent", "edge-getters")
+	zzverif.Assert(wg.HasEdge(from, to, DirectEdge, "") && wg.HasEdge(from, other, TTUEdge, "doc#parent"), "has-edge-finds-what-was-added")
+	zzverif.Assert(!wg.HasEdge(from, to, TTUEdge, "") && !wg.HasEdge(from, other, TTUEdge, "doc#p") && !wg.HasEdge(to, from, DirectEdge, "") && !wg.HasEdge(nil, to, DirectEdge, ""), "has-edge-finds-nothing-else")
+	nd, found := wg.GetNodeByID("doc#viewer")
+	zzverif.Assert(found && nd == from && nd.GetLabel() == "doc#viewer" && nd.GetNodeType() == SpecificTypeAndRelation, "node-getters")
+	_, found = wg.GetNodeByID("doc#nobody")
+	zzverif.Assert(!found, "node-getters")
+	zzverif.Assert(len(wg.GetNodes()) == 3 && len(wg.GetEdges()) == 1, "graph-getters")
+	// weights and wildcards through the getters after AssignWeights
+	if err := wg.AssignWeights(); err == nil {
+		w, okW := from.GetWeight("user")
+		zzverif.Assert(okW && w == 1 && len(from.GetWeights()) >= 1, "weight-getters")
+		ew, okE := e.GetWeight("user")
+		zzverif.Assert(okE && ew == 1 && len(e.GetWeights()) == 1 && len(e.GetWildcards()) == 0 && len(from.GetWildcards()) == 0, "weight-getters")
+	}
+	zzverif.Reach("checked")
+}
